@@ -254,6 +254,8 @@ pub enum Expected {
     Value(Option<Val>),
     Leaves(Vec<Leaf>),
     Panic(String),
+    /// the model does not predict the outcome (built-in conversions): anything but a panic
+    NoPanic,
 }
 
 pub fn expect(sc: &Scenario, doc: &InputDoc, recvs: &'static BTreeMap<&'static str, RecvDesc>, env: &Env) -> (Expected, Model<'static>, Result<(), String>) {
@@ -325,6 +327,7 @@ pub fn expect(sc: &Scenario, doc: &InputDoc, recvs: &'static BTreeMap<&'static s
     };
     match r {
         Err(Abort(k)) => (Expected::Panic(k), m, Ok(())),
+        _ if m.unpredictable => (Expected::NoPanic, m, Ok(())),
         Ok(Ok(v)) => (Expected::Value(Some(v)), m, Ok(())),
         Ok(Err(ls)) => (Expected::Leaves(ls), m, Ok(())),
     }
@@ -335,6 +338,7 @@ fn describe(e: &Expected) -> String {
         Expected::Value(v) => format!("Ok({:?})", v),
         Expected::Leaves(ls) => format!("Err({} leaves: {:?})", ls.len(), ls.iter().map(|l| (&l.msg, &l.path, &l.span)).collect::<Vec<_>>()),
         Expected::Panic(k) => format!("unwind with SimPanic({})", k),
+        Expected::NoPanic => "a value or an error (not predicted), never a panic".to_string(),
     }
 }
 
@@ -352,6 +356,7 @@ fn judge(exp: &Expected, obs: &Outcome, err: Option<&darling::Error>, tag: &str,
         }
         (Expected::Panic(k), other) => out.push(fail("C07.R2", format!("{}panic fault {} should have unwound the parse; got {:?}", tag, k, short(other)))),
         (_, Outcome::SimPanic(o)) => out.push(fail("C07.R2", format!("{}unexpected simulator panic {} (model did not expect that seam to be reached)", tag, o))),
+        (Expected::NoPanic, _) => {}
         (Expected::Value(v), Outcome::Ok(o)) => {
             if v != o {
                 out.push(fail("C02.R1v", format!("{}value differs: expected {:?}, got {:?}", tag, v, o)));
@@ -444,7 +449,7 @@ pub fn run(sc: &Scenario, recvs: &'static BTreeMap<&'static str, RecvDesc>) -> J
     judge(&exp, &outcome, err.as_ref(), "", &mut j.failures);
 
     // C02.R6: every input item is handed to exactly as many seam calls as the model says (0 or 1)
-    if !matches!(exp, Expected::Panic(_)) && !matches!(outcome, Outcome::Panic(_) | Outcome::SimPanic(_)) {
+    if !matches!(exp, Expected::Panic(_) | Expected::NoPanic) && !matches!(outcome, Outcome::Panic(_) | Outcome::SimPanic(_)) {
         let mut counts: BTreeMap<u32, u32> = BTreeMap::new();
         for c in &j.log {
             if let (Some(id), true) = (c.item, matches!(c.hook.as_str(), "from_meta" | "with" | "from_string" | "from_field")) {
